@@ -49,6 +49,22 @@ D = {
     "C21c": ("BackwardEuler: the re-solve inside the contact fixed-point loop is stored in sol_fp but the failure check still reads the first solve `sol`", "BackwardEuler with contacts, a step whose fixed-point loop needs a re-solve, and that re-solve failing"),
     "C24c": ("System.set_new_initial_state distributes q0 only to contributions that also have velocity coordinates", "a contribution with nq but no nu (MaxwellElement, PIDcontroller) and a restart"),
     "C26c": ("RigidBody.r_OP returns q[:3] itself (a view of the caller's array) for a zero offset", "the caller later updates its q in place; a later evaluation at the old values hits the rewritten cache entry"),
+    "C03c": ("T_SO3_psi switches to truncated series for beta2_psik, c_psik below an angle of 5e-2 (the series are one order too short for that threshold)", "rotation vectors with 1e-3 < |psi| < 5e-2: the derivative of the tangent map is off by ~1e-9..1e-7 relative, above rounding but below every test tolerance"),
+    "C04c": ("Frame.B_Omega: skew2ax(A_t A^T) (the inertial-frame spin) instead of skew2ax(A^T A_t)", "a Frame whose rotation axis is not fixed in the body frame (the two agree for rotations about a fixed axis)"),
+    "C05c": ("auxiliary_functions: A_IJ1_q1 einsum contracts with A_K1B0 transposed", "a joint whose frame is rotated against subsystem 1 by a non-symmetric rotation (A_K1B0 != A_K1B0^T), i.e. body 1 not in reference orientation at assembly"),
+    "C06c": ("Sphere2Plane.gamma_F_dot uses v_Q in place of a_Q for the frame acceleration", "a contact plane on a moving Frame with non-zero velocity or acceleration of its origin"),
+    "C07c": ("Force_line_distributed.h_el integrates with the dynamic quadrature rule and the velocity DOF table", "a rod whose nquadrature differs from nquadrature_dyn (reduced integration), load not constant along the rod"),
+    "C08c": ("Revolute.l_q drops the division by x^2 + y^2", "a revolute joint whose bodies violate the constraint slightly (x^2 + y^2 != 1): the derivative is taken off the manifold by every Newton iterate"),
+    "C09c": ("System.set_new_initial_state writes q0[:] / u0[:] into the existing arrays", "anything that still holds the previous initial state (a stored solution row, a reference configuration, a second system sharing the contribution)"),
+    "C10c": ("CosseratRodMixed.f_int_el / potential read J_dyn instead of J in the static quadrature loop", "a mixed rod with nquadrature != nquadrature_dyn or a non-uniform reference stretch"),
+    "C11c": ("CosseratRodDisplacementBased internal forces read J_dyn instead of J", "a displacement-based rod with nquadrature != nquadrature_dyn or a non-uniform reference stretch"),
+    "C12c": ("Simo1986: C_n_inv, C_m_inv via np.reciprocal of the stiffness arrays", "integer-typed stiffnesses (np.reciprocal of an integer array truncates to 0)"),
+    "C13c": ("Mesh1D.quadrature_points maps one reference rule affinely and divides the weights by nelement", "a knot vector with non-uniform element lengths"),
+    "C15c": ("CooMatrix.__setitem__ accepts any dense value of the right size instead of the right shape", "a block assigned with transposed shape (n x m value into an m x n slot): silently scrambled instead of rejected"),
+    "C16c": ("consistent_initial_conditions tests norm(gamma_F) of all contacts instead of the contact's own gamma_F[i_F] for sticking", "two frictional contacts, one sticking and one sliding"),
+    "C22c": ("fsolve scales the residual with |x| instead of |f|", "unknowns of large magnitude and newton_rtol > 0: a residual far above tolerance is accepted as converged"),
+    "C25c": ("Revolute.plane_axes = np.delete((0,1,2), axis) instead of the cyclic roll", "axis = 1: the plane axes come out as (0, 2) instead of (2, 0), so the measured angle changes sign"),
+    "C27c": ("estimate_prox_parameter writes the result into an array of W's dtype", "an integer-typed or float32 W: the prox parameters are truncated (to 0 for r < 1)"),
     "C22b": ("fixed_point_iteration calls fun(x) without the defensive copy", "a fixed-point map that updates its argument in place (DualStormerVerlet's own map with accelerated=False does)"),
 }
 rows = []
